@@ -46,9 +46,9 @@ The whole pipeline (`Balance.run`: check, ComputePrices, Valuate, Filter, CloseA
   `MTM.run` on the extracted trace;
 * `C03_run_mtm_bound` – hence `|entryVal a c inserts − quantity × last price| ≤ steps/10⁸` for `Balance.run` itself.
 
-Not covered: days outside the window (`--from` after the journal's first day: Filter drops the day's transactions,
-the report then shows the change inside the window — the known finding; `C03_pipeline_mtm_bound_window` is the trace-side
-statement for it) and the rendering of the inserts into cells (C06/C01 material; the monitor compares the real report).
+Continued in `Properties/C03Window.lean` (days outside the window: the windowed formula for every `--from`/`--to`),
+`Properties/C03Report.lean` (the cells of the rendered report against `Spec.mtm`, explicit step bound) and
+`Properties/C03Command.lean` (missing price, gain account, flows at booking-day prices).
 -/
 namespace Knut.C03
 open Knut Knut.Dec Knut.MTM
